@@ -75,7 +75,19 @@ def register(obj, p, ns, ev, rec, coro, base_ns_class):
             obj.register_namespace(cls(name))
 
 
-def run_server(p, kind, is_async, coro, rng, loop):
+def split(p, late):
+    """The registry p built in two steps: everything but `late` first, the
+    keys in `late` after the event has been dispatched once."""
+    early = dict(p)
+    rest = {k: False for k in p}
+    for k in late or ():
+        early[k] = False
+        rest[k] = p[k]
+    rest['method'] = p['method']
+    return early, rest
+
+
+def run_server(p, kind, is_async, coro, rng, loop, late=None):
     ns = '/n%d' % rng.randrange(1000)
     ev = {'ordinary': 'ev%d' % rng.randrange(1000), 'star': '*'}.get(kind,
                                                                       kind)
@@ -91,8 +103,9 @@ def run_server(p, kind, is_async, coro, rng, loop):
     else:
         sio = socketio.Server(async_mode='threading', **kw)
         S = engineio.socket.Socket
-    register(sio, p, ns, ev, rec, coro,
-             socketio.AsyncNamespace if is_async else socketio.Namespace)
+    early, rest = split(p, late)
+    nsbase = socketio.AsyncNamespace if is_async else socketio.Namespace
+    register(sio, early, ns, ev, rec, coro, nsbase)
 
     def run(x):
         if asyncio.iscoroutine(x) or isinstance(x, asyncio.Future):
@@ -119,6 +132,11 @@ def run_server(p, kind, is_async, coro, rng, loop):
         rec.calls = []
         if kind in ('ordinary', 'star'):
             feed(refcodec.ref_encode(2, ns, None, [ev, a1, a2])[0])
+            if late:
+                # the registry grows, the same event arrives again
+                rec.calls = []
+                register(sio, rest, ns, ev, rec, coro, nsbase)
+                feed(refcodec.ref_encode(2, ns, None, [ev, a1, a2])[0])
             normal = ['sid', 'a1', 'a2']
         else:
             rec.known.append(('client disconnect', 'reason'))
@@ -128,7 +146,7 @@ def run_server(p, kind, is_async, coro, rng, loop):
     return calls, normal, rec
 
 
-def run_client(p, kind, is_async, coro, rng, loop):
+def run_client(p, kind, is_async, coro, rng, loop, late=None):
     ns = '/n%d' % rng.randrange(1000)
     ev = {'ordinary': 'ev%d' % rng.randrange(1000), 'star': '*'}.get(kind,
                                                                       kind)
@@ -138,9 +156,10 @@ def run_client(p, kind, is_async, coro, rng, loop):
     rec = Rec(ns, ev, known)
     world = fakeeio.World()
     c = fakeeio.make_client(world, asyncio_based=is_async, reconnection=False)
-    register(c, p, ns, ev, rec, coro,
-             socketio.AsyncClientNamespace if is_async
-             else socketio.ClientNamespace)
+    early, rest = split(p, late)
+    nsbase = socketio.AsyncClientNamespace if is_async \
+        else socketio.ClientNamespace
+    register(c, early, ns, ev, rec, coro, nsbase)
 
     def run(x):
         if asyncio.iscoroutine(x) or isinstance(x, asyncio.Future):
@@ -157,6 +176,11 @@ def run_client(p, kind, is_async, coro, rng, loop):
     rec.calls = []
     if kind in ('ordinary', 'star'):
         run(c.eio.deliver(refcodec.ref_encode(2, ns, None, [ev, a1, a2])[0]))
+        if late:
+            rec.calls = []
+            register(c, rest, ns, ev, rec, coro, nsbase)
+            run(c.eio.deliver(refcodec.ref_encode(2, ns, None,
+                                                  [ev, a1, a2])[0]))
         return list(rec.calls), ['a1', 'a2'], rec
     run(c.eio.deliver(refcodec.ref_encode(1, ns)[0]))
     return list(rec.calls), ['reason'], rec
@@ -197,7 +221,40 @@ def build_cases(seed, tier):
                                 c[0] for c in calls), []
                         cases.append({'side': side + ('/coro' if coro else ''),
                                       'kind': kind, 'p': p, 'ran': ran,
-                                      'args': args, 'normal': normal})
+                                      'args': args, 'normal': normal,
+                                      'late': []})
+    # a registry that GROWS between two arrivals of the same event: the
+    # second arrival is resolved against the registry as it then is
+    grow = ['hNE', 'hNS', 'hSE', 'hSS', 'cN', 'cS']
+    for side, fn, is_async, coros, kinds in sides:
+        for p in lattice():
+            if p['other']:
+                continue
+            present = [k for k in grow if p[k]]
+            lates = [[k] for k in present]
+            if tier != 'quick':
+                lates += [[x for x in present if x != k] for k in present
+                          if len(present) > 2]
+                lates += [rng.sample(present, 2)] if len(present) > 3 else []
+            for kind in ('ordinary', 'star'):
+                if kind == 'star' and (p['hNE'] or p['hSE']):
+                    continue
+                for late in lates:
+                    for coro in coros:
+                        calls, normal, rec = fn(p, kind, is_async, coro, rng,
+                                                loop, late=late)
+                        calls = [c for c in calls if c[0] != 'other']
+                        if len(calls) == 0:
+                            ran, args = 'none', []
+                        elif len(calls) == 1:
+                            ran, args = calls[0]
+                        else:
+                            ran, args = 'multi:' + '+'.join(
+                                c[0] for c in calls), []
+                        cases.append({'side': side + ('/coro' if coro else ''),
+                                      'kind': kind, 'p': p, 'ran': ran,
+                                      'args': args, 'normal': normal,
+                                      'late': late})
     loop.close()
     return cases
 
